@@ -221,6 +221,7 @@ func Faithful(args []string) {
 			texts = append(texts, fuzzInput{text: render(s), class: "skeleton"})
 		}
 	}
+	texts = append(texts, grammarTexts(envInt("VH_GRAMMAR_PER", 3), 1)...)
 	w := tr.Create(*outp)
 	for hid, in := range texts {
 		ev := map[string]any{"e": "c07", "hid": hid, "class": in.class, "text": clip(in.text), "accepted": false, "panic": false, "reparse_ok": false,
